@@ -10,8 +10,10 @@
    C12_condense_split); what remains assumed of the model is H_rules_local alone. *)
 Require Import Base Overlap Tables_lexer Lexer Condense TokenInv CondenseInv ParaSplit ParaSplitProofs C12Doc LexSplitProofs LongSentencesSeam
   C12CondSpaces C12CondSuffix C12CondPattern C12CondPatterns3 C12CondInit C12CondQuotes C12LexEnds C12CondSplit
-  Tables_c12rules C12RuleShapes C12Merge C12MergeProofs C12Main.
+  Tables_c12rules C12RuleShapes C12Merge C12MergeProofs C12Windows C12WindowsProofs C12Main.
 From Coq Require Import Sorting.Permutation.
+Import Coq.Strings.String.StringSyntax. (* string literals only *)
+Delimit Scope string_scope with string.
 
 (* the index arithmetic of iter_chunks / iter_sentences / iter_paragraphs never slices out of range and
    computes "cut after every terminator" (one empty slice for the empty token list) *)
@@ -419,8 +421,65 @@ Proof. exact schema_inside. Qed.
 Check C12_schema_inside : forall p g0, g0_inside g0 -> rule_inside (schema_rule p g0).
 Print Assumptions C12_schema_inside.
 
-(* the table side (regenerated every run): exactly FIVE struct rules are outside every proved shape; exactly ten
-   per-slice bodies run under a document-wide remove_overlaps; the rest (69) are covered *)
+(* ---------- phase 5: UnclosedQuotes (exact body) and the kind-guarded token windows ---------- *)
+(* UnclosedQuotes as written (one lint, the token's own span, for every Quote token whose twin_loc is None) splits at
+   ANY cut of the token list, for any move of the second part (spans + n, twins + k) and whatever the sources are: the
+   rule reads of a quote only WHETHER it has a twin.  So the rule needs no premise; the no-quote premise of the property
+   is consumed by match_quotes alone (C12_match_quotes_split: P's side has no Quote token, hence the twins of D's
+   tokens in Document(P ++ D) are D's own twins + |tokens(P)|, set exactly where they are set in Document(D));
+   C12_unclosed_quotes_needs_premise shows what happens to this very rule without it. *)
+Theorem C12_unclosed_quotes_local :
+  para_local unclosed_quotes /\
+  (forall A B n k s1 s2 s3,
+     unclosed_quotes (A ++ map (shift_tok n k) B) s1 = unclosed_quotes A s2 ++ map (shift_lint n) (unclosed_quotes B s3)) /\
+  (forall ts src l, In l (unclosed_quotes ts src) <->
+                    exists t, In t ts /\ ParaSplit.tkind t = KQuote None /\ l = mklint (ParaSplit.tspan t) 255).
+Proof. exact (conj unclosed_quotes_local (conj unclosed_quotes_split unclosed_quotes_spec)). Qed.
+Check C12_unclosed_quotes_local :
+  para_local unclosed_quotes /\
+  (forall A B n k s1 s2 s3,
+     unclosed_quotes (A ++ map (shift_tok n k) B) s1 = unclosed_quotes A s2 ++ map (shift_lint n) (unclosed_quotes B s3)) /\
+  (forall ts src l, In l (unclosed_quotes ts src) <->
+                    exists t, In t ts /\ ParaSplit.tkind t = KQuote None /\ l = mklint (ParaSplit.tspan t) 255).
+Print Assumptions C12_unclosed_quotes_local.
+
+(* a loop over ALL windows of |g| adjacent tokens whose body reports nothing unless every position passes its kind guard
+   (Word / Space-or-Newline) is, for ANY body h, the window rule that skips windows containing a ParagraphBreak — the
+   guard does the skipping — and therefore paragraph-local (MergeWords, InflectedVerbAfterTo, AdjectiveOfA) *)
+Theorem C12_guarded_windows_local : forall g h,
+  (forall ts src, guarded_rule g h ts src = window_rule (length g) (guarded_g0 g h) ts src) /\
+  (forall c src, has_break c = true -> lift (guarded_g0 g h) c src = []) /\
+  (g <> [] -> para_local (guarded_rule g h)).
+Proof. exact (fun g h => conj (guarded_is_window g h) (conj (guarded_silent_across_break g h) (guarded_local g h))). Qed.
+Check C12_guarded_windows_local : forall g h,
+  (forall ts src, guarded_rule g h ts src = window_rule (length g) (guarded_g0 g h) ts src) /\
+  (forall c src, has_break c = true -> lift (guarded_g0 g h) c src = []) /\
+  (g <> [] -> para_local (guarded_rule g h)).
+Print Assumptions C12_guarded_windows_local.
+
+(* the table side (regenerated every run): the guards read from the three bodies, and what the rows of the four rules
+   that left the residue denote in curated_rules; CommaFixes denotes nothing *)
+Theorem C12_windows_pinned : forall g0,
+  window_guards = window_guards_expected /\
+  rule_of g0 "UnclosedQuotes"%string = Some unclosed_quotes /\
+  rule_of g0 "MergeWords"%string = Some (guarded_rule [PWord; PWhitespace; PWord] (g0 "MergeWords"%string)) /\
+  rule_of g0 "InflectedVerbAfterTo"%string = Some (guarded_rule [PWord; PWhitespace; PWord] (g0 "InflectedVerbAfterTo"%string)) /\
+  rule_of g0 "AdjectiveOfA"%string
+  = Some (guarded_rule [PWord; PWhitespace; PWord; PWhitespace; PWord] (g0 "AdjectiveOfA"%string)) /\
+  rule_of g0 "CommaFixes"%string = None.
+Proof. exact windows_pinned. Qed.
+Check C12_windows_pinned : forall g0,
+  window_guards = window_guards_expected /\
+  rule_of g0 "UnclosedQuotes"%string = Some unclosed_quotes /\
+  rule_of g0 "MergeWords"%string = Some (guarded_rule [PWord; PWhitespace; PWord] (g0 "MergeWords"%string)) /\
+  rule_of g0 "InflectedVerbAfterTo"%string = Some (guarded_rule [PWord; PWhitespace; PWord] (g0 "InflectedVerbAfterTo"%string)) /\
+  rule_of g0 "AdjectiveOfA"%string
+  = Some (guarded_rule [PWord; PWhitespace; PWord; PWhitespace; PWord] (g0 "AdjectiveOfA"%string)) /\
+  rule_of g0 "CommaFixes"%string = None.
+Print Assumptions C12_windows_pinned.
+
+(* the table side (regenerated every run): exactly ONE struct rule (CommaFixes; five before phase 5) is outside every
+   proved shape; exactly ten per-slice bodies run under a document-wide remove_overlaps; the rest (73) are covered *)
 Theorem C12_residue_pinned :
   residue = residue_expected /\ ro_bodies = ro_bodies_expected /\
   length (filter covered struct_rules) + length residue_expected = length struct_rules.
@@ -433,8 +492,9 @@ Print Assumptions C12_residue_pinned.
 (* THE PROPERTY with H_rules_local reduced to its residue.  The struct rules are the 74 rows of the generated table,
    each read as the instance of the shape the table gives it, for ARBITRARY per-slice bodies g0 (by rule / sub-rule
    name); the pattern rules are an ARBITRARY chunk function.  Assumed: the four facts about the newline character;
-   para_local for the five rules of residue_expected (AdjectiveOfA, UnclosedQuotes, CommaFixes, MergeWords,
-   InflectedVerbAfterTo); g0_inside for the ten bodies of ro_bodies_expected.  Still `_partial` in spirit for exactly
+   para_local for the rules of residue_expected (phase 5: CommaFixes alone — see C12_main_final; UnclosedQuotes is its
+   exact body, AdjectiveOfA / MergeWords / InflectedVerbAfterTo are guarded window rules with arbitrary bodies);
+   g0_inside for the ten bodies of ro_bodies_expected.  Still `_partial` in spirit for exactly
    these reasons and because D must not start with a newline. *)
 Theorem C12_main : forall u,
   u_whitespace u NL = true -> u_numeric u NL = false -> u_alphabetic u NL = false -> u_lingual u NL = false ->
@@ -456,6 +516,29 @@ Check C12_main : forall u,
                 (lints (doc_tokens u) chunk_fn (curated_rules g0 other) P
                  ++ map (shift_lint (length P)) (lints (doc_tokens u) chunk_fn (curated_rules g0 other) D)).
 Print Assumptions C12_main.
+
+(* C12_main with the residue spelled out: the locality of ONE rule (CommaFixes, get_token(ci - 2 .. ci + 2) with optional
+   neighbours), lints-inside-the-slice of the ten bodies under remove_overlaps, four facts about U+000A *)
+Theorem C12_main_final : forall u,
+  u_whitespace u NL = true -> u_numeric u NL = false -> u_alphabetic u NL = false -> u_lingual u NL = false ->
+  forall chunk_fn (g0 : String.string -> body) (other : String.string -> rule),
+  para_local (other "CommaFixes"%string) ->
+  (forall b, In b ro_bodies_expected -> g0_inside (g0 b)) ->
+  forall P D, c12_premise P -> no_leading_nl D ->
+    Permutation (lints (doc_tokens u) chunk_fn (curated_rules g0 other) (P ++ D))
+                (lints (doc_tokens u) chunk_fn (curated_rules g0 other) P
+                 ++ map (shift_lint (length P)) (lints (doc_tokens u) chunk_fn (curated_rules g0 other) D)).
+Proof. exact main_final. Qed.
+Check C12_main_final : forall u,
+  u_whitespace u NL = true -> u_numeric u NL = false -> u_alphabetic u NL = false -> u_lingual u NL = false ->
+  forall chunk_fn (g0 : String.string -> body) (other : String.string -> rule),
+  para_local (other "CommaFixes"%string) ->
+  (forall b, In b ro_bodies_expected -> g0_inside (g0 b)) ->
+  forall P D, c12_premise P -> no_leading_nl D ->
+    Permutation (lints (doc_tokens u) chunk_fn (curated_rules g0 other) (P ++ D))
+                (lints (doc_tokens u) chunk_fn (curated_rules g0 other) P
+                 ++ map (shift_lint (length P)) (lints (doc_tokens u) chunk_fn (curated_rules g0 other) D)).
+Print Assumptions C12_main_final.
 
 (* ---------- non-vacuity ---------- *)
 
@@ -627,7 +710,7 @@ Example C12_remove_overlaps_needs_strict :
 Proof. exact ro_needs_strict. Qed.
 
 (* the hypotheses of C12_main are satisfiable: bodies reporting the first character and the whole of every slice are
-   inside; one-token window rules for the five residue names; 74 rules; a merged rule over two such bodies really drops
+   inside; a one-token window rule for the residue name (CommaFixes); 74 rules; a merged rule over two such bodies really drops
    overlapping lints (8 collected, 2 kept) *)
 Example C12_main_final_hyps_satisfiable :
   (forall name, In name residue_expected -> para_local (ex_other name)) /\
@@ -641,3 +724,28 @@ Example C12_main_final_hyps_satisfiable :
    = [(0, 3); (3, 6)] /\
    length (flat_map (fun r => r ts src) ex_merge_subs) = 8).
 Proof. exact main_hyps_satisfiable. Qed.
+
+(* non-vacuity of the guarded windows (`ab cd.` BREAK `ef` NEWLINE `gh`): the guard passes once on each side and on none of
+   the windows containing the break; glued = separately + shifted (6 windows looked at) *)
+Example C12_guarded_windows_nonvacuous :
+  let r := guarded_rule [PWord; PWhitespace; PWord] whole_window in
+  let spans := map (fun l => (lstart l, lend l)) in
+  spans (r gw_A gw_P) = [(0, 5)] /\ spans (r gw_B gw_D) = [(0, 5)] /\
+  spans (r (gw_A ++ map (shift_tok 8 5) gw_B) (gw_P ++ gw_D)) = [(0, 5); (8, 13)] /\
+  length (windows 3 (gw_A ++ map (shift_tok 8 5) gw_B)) = 6.
+Proof. exact guarded_example. Qed.
+
+(* what the no-quote premise buys, seen through UnclosedQuotes itself (the texts of C12_quote_premise_needed: P = quote a
+   period blank line, D = quote b quote): alone P has one unclosed quote (0..1) and D none; together P's quote is paired
+   with D's first and D's LAST quote is reported (7..8) — a lint of P hidden and a lint of D created by gluing.  The rule
+   is local on tokens (C12_unclosed_quotes_local); the tokens are not tokens(P) ++ shift tokens(D). *)
+Example C12_unclosed_quotes_needs_premise :
+  let P := [34; 97; 46; 10; 10]%N in let D := [34; 98; 34]%N in
+  let spans := map (fun l => (lstart l, lend l)) in
+  ~ quote_free P /\
+  spans (unclosed_quotes (doc_tokens ascii_uni P) P) = [(0, 1)] /\
+  spans (unclosed_quotes (doc_tokens ascii_uni D) D) = [] /\
+  spans (unclosed_quotes (doc_tokens ascii_uni (P ++ D)) (P ++ D)) = [(7, 8)].
+Proof.
+  cbv zeta. split; [intros H; inversion H; discriminate|]. repeat split; vm_compute; reflexivity.
+Qed.
